@@ -17,7 +17,7 @@ from simkit import editor as E
 PROP = "C06"
 LEVEL = "exploration"
 BUDGET = {"quick": 150, "thorough": 900}
-RULE = ("Histories of 1-10 operations (add / update / replace / disable / enable / move / remove / restart-from-text) over 4 "
+RULE = ("Histories of 1-10 operations (add / update / replace / disable / enable / move / remove / read-back / restart-from-text) over 4 "
         "names; every definition drawn from the documented forms (header fallback incl. list-valued names and keys, "
         "exists, size, envelope, address, body, currentdate with and without :value, true/false; fileinto/redirect with "
         ":copy/:create/:flags, reject, keep, discard, stop, set/add/removeflag, vacation with every tag) with values over an "
@@ -144,8 +144,8 @@ def run(ch, config, res):
     while failure is None and i < nops:
         i += 1
         with ch.scope("op#%d" % i):
-            k = wl.weighted("op", [6, 3, 2, 2, 1, 1, 1, 2]) if model else 0
-            op = ["add", "update", "replace", "disable", "enable", "move", "remove", "restart"][k]
+            k = wl.weighted("op", [6, 3, 2, 2, 1, 1, 1, 2, 2]) if model else 0
+            op = ["add", "update", "replace", "disable", "enable", "move", "remove", "restart", "readback"][k]
             n = NAMES[wl.int("name", len(NAMES))]
             label = "op %d %s(%s)" % (i, op, n)
             if op in ("add", "update"):
@@ -210,6 +210,15 @@ def run(ch, config, res):
                 E.classify(lambda: fsb.removefilter(n))
                 if rc[0] == "ok":
                     del model[find(n)]
+            elif op == "readback":
+                # reading a filter back is not supposed to change what is generated afterwards
+                for getter in ("get_filter_conditions", "get_filter_actions", "get_filter_matchtype", "getfilter", "is_filter_disabled"):
+                    for target in (fs, fsb):
+                        try:
+                            getattr(target, getter)(n)
+                        except Exception:
+                            pass
+                res.count("readbacks")
             elif op == "restart":
                 f2, text, err = E.restart_local(fs)
                 fb2, textb, errb = E.restart_local(fsb)
